@@ -7,6 +7,13 @@ import os
 import sys
 
 cfg = json.loads(sys.argv[1])
+if cfg.get("prehook"):
+    # an exception hook installed by the environment (debugger, IDE, test runner) before pysnark is imported
+    _prev_hook = sys.excepthook
+
+    def _env_hook(t, v, tb):
+        _prev_hook(t, v, tb)
+    sys.excepthook = _env_hook
 import pysnark.runtime as rt                      # backend chosen by PYSNARK_BACKEND in the environment
 from pysnark.runtime import PubVal
 
